@@ -53,6 +53,22 @@ pub fn replay(script: &[Step], armed: u32, record_roots: bool) -> ReplayOut {
     out
 }
 
+/// Re-execute a script and return the FEN of the first recorded position whose census key is `key`.
+pub fn replay_watch(script: &[Step], armed: u32, key: (u64, u64)) -> Option<String> {
+    let mut ex = Exec::new(armed);
+    ex.watch_key = Some(key);
+    for s in script {
+        match ex.step(s) {
+            Ok(Flow::Go) => {}
+            _ => break,
+        }
+        if ex.watch_hit.is_some() {
+            break;
+        }
+    }
+    ex.watch_hit
+}
+
 fn same(sig: &str, script: &[Step], armed: u32) -> bool {
     match replay(script, armed, false).violation {
         Some(v) => v.sig == sig,
